@@ -139,6 +139,41 @@ def decExact (b : Bytes) : Except Err Item :=
   | .ok (i, []) => .ok i
   | .ok (_, _ :: _) => .error .moreThanOne
 
+/-! ### the second parser of the format: libs/ser/raw.go (Split / SplitString / SplitList / CountValues), used by the trie
+    node decoder and by stateObject.GetCommittedState -/
+
+/-- `Split`: kind, content and rest of the first value; lists are not entered -/
+def split (b : Bytes) : Except Err (Kind × Bytes × Bytes) :=
+  match readHead b with
+  | .error e => .error e
+  | .ok (.byte, _, bv, r) => .ok (.byte, [bv], r)
+  | .ok (k, sz, _, r) =>
+    if r.length < sz then .error .valueTooLarge
+    else if k == .string && single7 (r.take sz) then .error .canonSize
+    else .ok (k, r.take sz, r.drop sz)
+
+def splitString (b : Bytes) : Except Err (Bytes × Bytes) :=
+  match split b with
+  | .error e => .error e
+  | .ok (.list, _, _) => .error .expectedString
+  | .ok (_, c, r) => .ok (c, r)
+
+def splitList (b : Bytes) : Except Err (Bytes × Bytes) :=
+  match split b with
+  | .error e => .error e
+  | .ok (.list, c, r) => .ok (c, r)
+  | .ok (_, _, _) => .error .expectedList
+
+/-- `CountValues`: the number of values a payload consists of -/
+def countValues : Nat → Bytes → Except Err Nat
+  | _, [] => .ok 0
+  | 0, _ => .error .fuel
+  | f + 1, b => match split b with
+    | .error e => .error e
+    | .ok (_, _, r) => match countValues f r with
+      | .error e => .error e
+      | .ok n => .ok (n + 1)
+
 /-! ### measures -/
 
 mutual
